@@ -8,6 +8,7 @@ from amaranth.hdl import _nir as nir
 from amaranth.lib import io
 from amaranth.sim import Simulator
 
+from vlib.reuse import elaborated_before
 from vlib.runner import Part, Mismatch, HarnessError
 from vlib.gen_expr import INT, BOOL, PICK
 
@@ -238,6 +239,8 @@ def sim_body(ctx, case, ff=False):
         m.submodules.buf = buf
         dummy = Signal(3)
         m.d.x += dummy.eq(dummy + 1)
+        if elaborated_before(case, m):
+            ctx.tally("reuse:design-elaborated-before")
         sim = Simulator(m)
     w = len(bits)
     mask = sum(1 << j for j, (_, _, v) in enumerate(bits) if v)
